@@ -88,6 +88,11 @@ class C17(Scenario):
             closer = rng.choice(gaps + [3 * dt])
         sched = draw_sched(cfg, line=True, pct_k=250, step_cap=60_000, horizon=600)
         sched["instr"] = cfg.random() < 0.5
+        frng = random.Random(f"{seed}:faults")
+        if dt and frng.random() < 0.25:
+            # the wall clock is stepped (NTP, suspend/resume, date set by hand) while elements wait: "elapsed since insertion"
+            # is a statement about real elapsed time, which the virtual monotonic clock stands for
+            sched["clock_jumps"] = [[frng.randrange(0, 4 * dt + 1), frng.choice([1, -1]) * frng.choice([dt // 2, dt, 3 * dt])] for _ in range(frng.choice([1, 1, 2]))]
         # some runs use elements that compare equal although they are distinct objects
         groups = {str(i): 0 for i in range(n) if rng.random() < 0.6} if rng.random() < 0.4 else {}
         return {"delay": delay, "producer": prod, "remover": rem, "closer": closer, "sched": sched, "late_get": rng.random() < 0.5, "groups": groups}
